@@ -5,6 +5,7 @@ CHECK_DEADLOCK FALSE
 CONSTANTS
  HonorsHost = FALSE
  SchemeBound = FALSE
+ FoldCase = FALSE
  StripOnRedirect = FALSE
  MaxFaults = 3
  Confs <- QuickGenConfs
@@ -13,3 +14,4 @@ CONSTANTS
  RedirTo <- AllRedir
  TokReplies <- AllTok
  ForeignRealms <- TaRealm
+ LocTo <- AllLoc
